@@ -176,10 +176,19 @@ class Weekday(_D):
     name = 'C14.weekday'
     doc = 'WEEKDAY equals the true day of the week under numbering types 1-3 and is #NUM! for other types'
     functions = ('dateandtime.WEEKDAY',)
-    bounds = 'every day 1900-03-01..9999-12-31; return type any integer'
+    bounds = 'every day 1900-03-01..9999-12-31; return type any integer -5..25, given as an integer, as an integer-valued float (4/2) ' \
+             'and as a logical'
+
+    def cases(self, tier):
+        return [{'tk': 'int'}, {'tk': 'float'}, {'tk': 'bool'}]
 
     def build(self, e, p):
-        return {'a': dates.fresh_datetime_ord(e, 'a', ORD_1900_03_01), 't': e.fresh_int('t', -5, 25)}
+        t = e.fresh_int('t', -5, 25)
+        if p.get('tk') == 'float':
+            t = SymFloat(iz=t.z)
+        elif p.get('tk') == 'bool':
+            t = e.fresh_bool('t')
+        return {'a': dates.fresh_datetime_ord(e, 'a', ORD_1900_03_01), 't': t}
 
     def run(self, env, inp, p):
         return [self.parse_with(env, 'WEEKDAY(va,vt)', {'va': inp['a'], 'vt': inp['t']}),
@@ -190,6 +199,8 @@ class Weekday(_D):
             return False
         a = as_sym_dt(inp['a'])
         t = inp['t']
+        if isinstance(t, (bool, SymBool)):
+            t = mkint(zint(t))        # TRUE is numbering type 1, FALSE is 0 (no such type)
         # 0001-01-01 (ordinal 1) was a Monday: ordinal mod 7 = 1 Monday ... 6 Saturday, 0 Sunday
         om = fmod(a.ord, z3.IntVal(7))
         sun1 = om + 1                               # Sunday=1 .. Saturday=7
@@ -243,3 +254,64 @@ class Edate(_D):
             return False
         ry, rm, rd = as_sym_dt(r)._ymd()
         return And(Not(outside), mkbool(z3.simplify(z3.And(ry == y2, rm == m2, rd == d2, as_sym_dt(r).us == 0))))
+
+
+@register
+class IsoText(_D):
+    name = 'C14.iso_text'
+    doc = 'the same components are read from ISO date-time text: YEAR / MONTH / DAY / HOUR / MINUTE / SECOND of the text ' \
+          'YYYY-MM-DD, YYYY-MM-DD hh:mm, YYYY-MM-DDThh:mm, YYYY-MM-DD hh:mm:ss and YYYY-MM-DDThh:mm:ss'
+    functions = ('dateandtime.YEAR', 'dateandtime.MONTH', 'dateandtime.DAY', 'dateandtime.HOUR', 'dateandtime.MINUTE',
+                 'dateandtime.SECOND', 'utils.parse_date', 'helper.number.to_number')
+    bounds = 'every valid date 1900..9999 and time of day, the digits of the text symbolic (month split); the conversion of the ' \
+             'text is dateutil.parser.parse under its ISO 8601 contract (a stub: text of exactly this shape with valid fields ' \
+             'denotes that date-time), whatever else the code does with the text runs symbolically'
+    outside = ('other spellings of dates and times (dateutil\'s free-form parsing is not encoded)', 'fractional seconds, time zones')
+    stubs = ('dateutil.parser.parse: ISO 8601 contract for YYYY-MM-DD[( |T)hh:mm[:ss]], validated against the real dateutil in the selftest',)
+    needs_ply = False
+
+    def cases(self, tier):
+        ms = (1, 2, 6, 12) if tier == 'quick' else range(1, 13)
+        return [{'month': m, 'shape': sh, 'sep': sep} for m in ms for sh in (10, 16, 19) for sep in ((' ', 'T') if sh > 10 else ('',))]
+
+    def build(self, e, p):
+        from ..values import SymStr
+        from .common import DIGITS
+        d = lambda nm, n: e.fresh_str(nm, n, alphabet=DIGITS).cps
+        lit = lambda t: tuple(ord(c) for c in t)
+        num = lambda cs: z3.simplify(sum((c - 48) * 10 ** (len(cs) - 1 - i) for i, c in enumerate(cs)))
+        Y, D = d('y', 4), d('d', 2)
+        M = lit('%02d' % p['month'])
+        y, dd = num(Y), num(D)
+        e.add(y >= 1900, dd >= 1, dd <= z_days_in_month(y, z3.IntVal(p['month'])))
+        cps = Y + lit('-') + M + lit('-') + D
+        comp = {'y': y, 'mo': z3.IntVal(p['month']), 'd': dd, 'h': z3.IntVal(0), 'mi': z3.IntVal(0), 's': z3.IntVal(0)}
+        if p['shape'] >= 16:
+            H, MI = d('h', 2), d('mi', 2)
+            e.add(num(H) <= 23, num(MI) <= 59)
+            cps = cps + lit(p['sep']) + H + lit(':') + MI
+            comp['h'], comp['mi'] = num(H), num(MI)
+        if p['shape'] == 19:
+            S = d('s', 2)
+            e.add(num(S) <= 59)
+            cps = cps + lit(':') + S
+            comp['s'] = num(S)
+        e.iso_components = comp
+        return {'text': SymStr(cps)}
+
+    def _components(self, env, inp):
+        if env.symbolic:
+            c = E.cur().iso_components
+            return [mkint(c[k]) for k in ('y', 'mo', 'd', 'h', 'mi', 's')]
+        t = inp['text']
+        return [int(t[0:4]), int(t[5:7]), int(t[8:10]), int(t[11:13]) if len(t) >= 16 else 0, int(t[14:16]) if len(t) >= 16 else 0,
+                int(t[17:19]) if len(t) == 19 else 0]
+
+    def run(self, env, inp, p):
+        vs = {'vt': inp['text']}
+        return [self.parse_with(env, '%s(vt)' % f, vs) for f in ('YEAR', 'MONTH', 'DAY', 'HOUR', 'MINUTE', 'SECOND')]
+
+    def post(self, env, inp, out, p):
+        if isinstance(out, Raised) or not all(is_record(o) for o in out):
+            return False
+        return And(*[int_eq(o, w) for o, w in zip(out, self._components(env, inp))])
